@@ -42,7 +42,7 @@ class CurrentNodeUsedQuoteColumn(AnalyzerRecursionASTToListBase):
         if isinstance(node, core.ASTGroupByClause):
             quote_column_list = []
             for column in node.columns:
-                if is_int_literal(column.source()):
+                if isinstance(column, core.ASTLiteralExpression) and is_int_literal(column.source()):
                     quote_column_list.append(QuoteColumn(column_name=None, column_idx=int(column.source())))
                 else:
                     quote_column_list.extend(cls.handle(column))
@@ -53,7 +53,7 @@ class CurrentNodeUsedQuoteColumn(AnalyzerRecursionASTToListBase):
         if isinstance(node, core.ASTOrderByClause):
             quote_column_list = []
             for column in node.columns:
-                if is_int_literal(column.column.source()):
+                if isinstance(column.column, core.ASTLiteralExpression) and is_int_literal(column.column.source()):
                     quote_column_list.append(QuoteColumn(column_name=None, column_idx=int(column.column.source())))
                 else:
                     quote_column_list.extend(cls.handle(column))
